@@ -250,7 +250,7 @@ TR = "io::traits::verif_traits::"
 NA = "net::verif_netaddr::"
 P["C08"] = {
     "level_text": "Proof on the real code: the kernel-chosen buffer id in a completion is turned into an owned slice of exactly that slot (ReadOp/MultishotReadOp decoders, init_buffer); ReadBufPool::release re-offers exactly the slot the pointer belongs to (id recomputed from the unchanged base pointer), writes the entry at tail & mask and advances the 16-bit tail by one, for every tail value incl. the wrap and whatever other releasers did before the lock was obtained, leaving all other ring entries, buffers and canaries untouched; ReadBuf::release/Drop give the buffer back exactly once (Option::take).",
-    "level_note": "Pool geometry fixed at 4 buffers x 8 bytes in the harnesses (bounded: the index arithmetic (ptr - base) / buf_size is size-generic; a Verus lemma for all sizes is listed in DESIGN.md). KNOWN FINDING F10 (same root cause as F9): a buffer id delivered to an abandoned operation is never re-offered. ReadBufPool::new/Drop (allocation, registration) are C12/C18-style resource obligations, not yet under contract. Observation outside the tools' reach: release() writes the whole io_uring_buf including `resv`, which for entry 0 overlays the ring tail - the tail is transiently 0 until the final store (visible only to a concurrently reading kernel).",
+    "level_note": "Pool geometry fixed at 4 buffers x 8 bytes in the harnesses (bounded: the index arithmetic (ptr - base) / buf_size is size-generic; V c08.pool_lemmas covers every size). KNOWN FINDING F10 (same root cause as F9, reproduced on the real kernel: findings/F10): a buffer id delivered to an abandoned pool read is never re-offered - c08.abandoned.read fails with exactly that check (the in-flight ReadBuf, which owns nothing, is held in ManuallyDrop there to keep the pool's teardown out of the formula). ReadBufPool::new/Drop (allocation, registration) are C12/C18-style resource obligations, not yet under contract. Observation outside the tools' reach: release() writes the whole io_uring_buf including `resv`, which for entry 0 overlays the ring tail - the tail is transiently 0 until the final store (visible only to a concurrently reading kernel).",
     "functions": [
         {"file": "src/io_uring/io.rs", "fn": r"pub\(crate\) unsafe fn init_buffer\("},
         {"file": "src/io_uring/io.rs", "fn": r"pub\(crate\) unsafe fn release\(&self, ptr: NonNull<\[u8\]>\)"},
@@ -265,6 +265,7 @@ P["C08"] = {
         K("c08.readbuf.release_once", "read_buf.rs", RB + "c08_readbuf_release_once", "ReadBuf::release then release/Drop: exactly one buffer re-offered, and it is this ReadBuf's slot; released ReadBuf owns nothing", ["io::read_buf::ReadBuf::release", "io::read_buf::<impl Drop for ReadBuf>::drop"], bounded="pool 4 x 8 bytes"),
         K("c08.map.read", "uio.rs", UIO + "c13_enc_read_pool", "ReadOp with a pool buffer: BUFFER_SELECT from the pool's group; F_BUFFER id => the ReadBuf owns exactly slot id with len n", ["io_uring::io::ReadOp::fill_submission", "io_uring::io::ReadOp::map_ok", "io::read_buf::ReadBuf::buffer_init"], bounded="pool 4 x 8 bytes"),
         K("c08.pool.new_drop", "uio.rs", UIO + "c08_pool_new_drop", "ReadBufPool::new: PBUF_RING registration of this pool's ring/group, entry i == (base+i*bs, bs, i), tail == pool_size (all buffers offered); refused registration frees and returns the error; Drop unregisters and frees both allocations with the creation layouts", ["io_uring::io::ReadBufPool::new", "io_uring::io::<impl Drop for ReadBufPool>::drop"], bounded="pool_size in {1,2}, buf_size <= 16", tier="thorough"),
+        K("c08.abandoned.read", "uio.rs", UIO + "c08_abandoned_read", "a buffer id delivered (IORING_CQE_F_BUFFER) to a pool read whose future was dropped while in flight is re-offered to the kernel  [KNOWN FINDING F10]", ["io_uring::op::Shared::update", "io_uring::op::drop_state"], bounded="pool 4 x 8 bytes"),
         K("c08.map.multishot_read", "uio.rs", UIO + "c08_map_multishot_read", "MultishotReadOp: one ReadBuf per result owning the kernel-chosen slot; no F_BUFFER => empty ReadBuf that gives nothing back", ["io_uring::io::MultishotReadOp::map_next", "io::read_buf::ReadBufPool::new_buffer"], bounded="pool 4 x 8 bytes"),
     ],
 }
